@@ -45,10 +45,19 @@ def main(argv):
         try:
             mod = importlib.import_module(f"pgfstatic.rules.{prop.lower()}")
             prog = model.program()
+            rep = None
             rep = Report(prop, tier)
-            mod.run(prog, rep, tier)
-            if tier == "thorough" and hasattr(mod, "thorough"):
-                mod.thorough(prog, rep)
+            try:
+                mod.run(prog, rep, tier)
+                if tier == "thorough" and hasattr(mod, "thorough"):
+                    mod.thorough(prog, rep)
+            except model.AnalysisError as e:
+                # a violation that was positively identified before the analysis got stuck is
+                # still a violation; otherwise this is an honest "cannot decide"
+                if not rep.findings:
+                    raise
+                rep.note(f"analysis incomplete after the reported violation(s): {e}")
+                print(f"note: analysis incomplete after the reported violation(s): {e}")
             r = rep.finish()
         except model.AnalysisError as e:
             print(f"ANALYSIS-ERROR property={prop}: {e}")
